@@ -8,7 +8,8 @@ class C03(Spec):
     lean_deps = ("C01", "C02")
     required_theorems = ("C03.proof_complete", "C03.proof_complete_bytes", "C03.proof_sound", "C03.proof_sound_located",
                          "C03.verify_other_root", "C03.verify_total", "C03.verify_membership", "C03.forgery_rejected",
-                         "C03.membership_forgery_old", "C03.membership_forgery_value_old")
+                         "C03.membership_forgery_old", "C03.membership_forgery_value_old", "C03.branch_binds_child",
+                         "C03.own_record_is_no_proof", "C03.fill_only_empty_side_forgery")
     level_text = ("Lean 4 theorems over the executable model of proof.go / VerifyKVPairProof, hash function a parameter with "
                   "32-byte outputs: completeness — for every key found in a hashed search tree (hashed under any configuration, "
                   "C02.hashNode_Hashed) constructProof succeeds and Proof.Verify accepts it with the stored value against the "
@@ -23,9 +24,18 @@ class C03(Spec):
                   "membership_forgery_old / membership_forgery_value_old keep the witnesses as facts about the OLD verify "
                   "(finding C03|VerifyKVPairProof|accepts-forged-proof-leaf-reread-as-inner-node, fixed; the harness still replays "
                   "both forgery variants on every tree and would report a regression). "
+                  "Every branch record binds the child hash, whatever sides it carries (branch_binds_child: left empty => child on "
+                  "the left, otherwise the child REPLACES the right side; the soundness theorems are stated for arbitrary proof "
+                  "bytes and rest on it); a node's own record with both child hashes proves nothing but the leaf on its right "
+                  "(own_record_is_no_proof); a step that fills only an EMPTY side would accept every pair "
+                  "(fill_only_empty_side_forgery, regression witness). "
                   "Tie: for every key of generated trees under prefix/prune (and sampled other) configurations the Go proof "
                   "bytes equal the Lean proof bytes; honest proofs, every single-field change of key/value/root, structural and "
-                  "byte mutations of the proof and arbitrary wire-shaped byte strings go to VerifyKVPairProof under recover; "
+                  "byte mutations of the proof, forged proofs whose branch records carry BOTH child hashes (the honest proof folded up "
+                  "to each level by the harness itself: the node's own record, as a suffix or in place, with wrong fills, swapped "
+                  "sides, key prefixes) or NONE, offered for the honest pair, for other present pairs and for pairs that are not "
+                  "in the state (must be rejected: accepts-forged-proof-branch-with-both-child-hashes / -no-child-hash), and "
+                  "arbitrary wire-shaped byte strings go to VerifyKVPairProof under recover; "
                   "accept/reject equals the model's (its proto3 decoder mirrors protobuf-go's field loop) and the predicate "
                   "(accept honest, reject other value/key/root, never panic) is evaluated on the implementation.")
     level_note = ("Byte-level completeness assumes the tree fits the Go types (int32 height/size, node keys < 2^32 bytes: `Fits`). "
